@@ -120,8 +120,13 @@ pub fn target_split_bytes(total_bytes: u64, nodes: usize) -> u64 {
 /// data-cost.
 pub fn enumerate_parquet(table: &str, files: &[PathBuf], nodes: usize) -> Result<SplitSet> {
     // Pass 1: row-group inventory, in canonical file order.
-    let mut ordered: Vec<&PathBuf> = files.iter().collect();
-    ordered.sort_by_key(|p| file_key(p));
+    // Keys are computed for the whole list at once: files that share a name
+    // (partition directories, `date=…/part-0.parquet`) are told apart by as
+    // many trailing directory components as it takes, so the order never
+    // depends on the order of `files`.
+    let keys = file_keys(files);
+    let mut ordered: Vec<(&PathBuf, &String)> = files.iter().zip(keys.iter()).collect();
+    ordered.sort_by(|a, b| a.1.cmp(b.1));
 
     struct RowGroup<'a> {
         path: &'a PathBuf,
@@ -134,7 +139,7 @@ pub fn enumerate_parquet(table: &str, files: &[PathBuf], nodes: usize) -> Result
     let mut inventory: Vec<RowGroup> = Vec::new();
     let mut total_bytes: u64 = 0;
     let mut total_rows: i64 = 0;
-    for path in ordered {
+    for (path, key) in ordered {
         let md = crate::storage::metadata_cache::cached_metadata(path).map_err(|e| {
             QueryError::Execution(format!(
                 "cannot read parquet footer for {}: {e}",
@@ -152,7 +157,7 @@ pub fn enumerate_parquet(table: &str, files: &[PathBuf], nodes: usize) -> Result
             total_rows += rows;
             inventory.push(RowGroup {
                 path,
-                file: file_key(path),
+                file: key.clone(),
                 index,
                 rows,
                 bytes,
@@ -221,6 +226,56 @@ fn file_key(path: &Path) -> String {
     path.file_name()
         .map(|n| n.to_string_lossy().into_owned())
         .unwrap_or_else(|| path.to_string_lossy().into_owned())
+}
+
+/// Canonical keys for a whole file list.
+///
+/// A file's key is its name. When several files of one table share a name —
+/// Hive/Iceberg partition directories routinely hold `part-00000.parquet`
+/// each — the name alone would give them EQUAL keys, and the split order (and
+/// with it the digest and the split-to-path mapping) would silently depend on
+/// the order of the input list. Such files are disambiguated by extending the
+/// key leftwards with parent directory components, only as far as needed.
+/// The mount point is a *prefix* of the path, so it still never enters a key.
+fn file_keys(files: &[PathBuf]) -> Vec<String> {
+    let suffix = |path: &Path, depth: usize| -> String {
+        let comps: Vec<String> = path
+            .components()
+            .filter_map(|c| match c {
+                std::path::Component::Normal(s) => Some(s.to_string_lossy().into_owned()),
+                _ => None,
+            })
+            .collect();
+        if comps.is_empty() {
+            return file_key(path);
+        }
+        let take = depth.min(comps.len());
+        comps[comps.len() - take..].join("/")
+    };
+    let max_depth = |path: &Path| path.components().count().max(1);
+    let mut depth = vec![1usize; files.len()];
+    let mut keys: Vec<String> = files.iter().map(|p| suffix(p, 1)).collect();
+    loop {
+        let mut count: std::collections::HashMap<&str, usize> = std::collections::HashMap::new();
+        for k in &keys {
+            *count.entry(k.as_str()).or_insert(0) += 1;
+        }
+        let mut grew = false;
+        let clashing: Vec<bool> = keys.iter().map(|k| count[k.as_str()] > 1).collect();
+        for (i, clash) in clashing.into_iter().enumerate() {
+            if clash && depth[i] < max_depth(&files[i]) {
+                depth[i] += 1;
+                let k = suffix(&files[i], depth[i]);
+                if k != keys[i] {
+                    keys[i] = k;
+                    grew = true;
+                }
+            }
+        }
+        if !grew {
+            return keys;
+        }
+    }
 }
 
 impl SplitSet {
